@@ -19,6 +19,7 @@ from .. import encode, genpel, seams, tlc
 ID = 'C11'
 LEVEL = 'model_checking'
 TRACE = 'trace/Trace_C11'
+PROCESS_EVERY = 5         # every fifth case runs the command line as a real process (seams.PROC_VARIANTS)
 PROOFS = ['DeleteLoopProof']
 RULE = ('case = one behaviour: a concrete directory tree (PEL files, junk, nested directories, names with and '
         'without entry ids) and a sequence of 4-8 CLI invocations (TLC-simulated from Gen_PelDir or seeded random); '
@@ -287,8 +288,12 @@ def argv_for(c, root, names, rng):
 
 def run_case(case):
     rng = random.Random(case['seed'])
-    root = os.path.join(seams.scratch_dir('c11'), 'tree')
-    shutil.rmtree(root, ignore_errors=True)
+    # the PATH of the directory is not the name of a file in it: an id in the path (a case directory named after a
+    # log, say) selects nothing
+    top = os.path.join(seams.scratch_dir('c11'), 't')
+    shutil.rmtree(top, ignore_errors=True)
+    root = os.path.join(top, rng.choice(['tree', 'tree', 'case_%08X' % IDS[rng.choice([1, 2, 4, 5])],
+                                         '%08X' % IDS[rng.choice([1, 3])]]))
     os.makedirs(root)
     names, eids = build_tree(root, case['tree0'], rng, case.get('extra', 0))
     recs = []
